@@ -37,7 +37,7 @@ func init() {
 		Check:           c08Check,
 		DistinctClasses: []string{"fault-code", "ref-code"},
 		MinEvaluations:  func(tier string) int64 { return 5000 },
-		RequiredCounts:  []string{"valid_accepted", "fault_rejected", "multi_fault_judged", "blind_judged", "collision_valid", "collision_conflicting"},
+		RequiredCounts:  []string{"revalidated_against_second_schema", "second_schema_rejects", "valid_accepted", "fault_rejected", "multi_fault_judged", "blind_judged", "collision_valid", "collision_conflicting"},
 	})
 }
 
@@ -96,6 +96,11 @@ func c08Run(x *core.Ctx) {
 				continue
 			}
 			c := core.NewCase("pair", "schema", sc.src, "doc", rn.RenderDoc(doc), "expect", "valid")
+			if j%4 == 2 {
+				// a second schema: the same definitions without the default values of field arguments (what was an optional
+				// argument becomes a required one, a nullable variable no longer fits a non-null position)
+				c.Set("schema2", c08WithoutArgDefaults(rn, sc.items))
+			}
 			x.Do(c, func() { c08Check(x, c) })
 			// one fault, two different classes per document
 			for k := 0; k < 2; k++ {
@@ -194,6 +199,29 @@ func c08Check(x *core.Ctx, c *core.Case) {
 	ref := rval.Validate(mg, model.FromAST(doc))
 	errs := validator.Validate(schema, doc)
 	c08EntryPoints(x, schema, c.Get("doc"), errs)
+	if s2src := c.Get("schema2"); s2src != "" {
+		// the document object that was just validated against this schema is validated against another one: the verdict
+		// and the errors are those of a fresh parse against that schema (nothing the first validation left on the tree counts)
+		if s2, err2 := gqlparser.LoadSchema(&ast.Source{Name: "schema2.graphql", Input: s2src}); err2 == nil {
+			if fresh, perr := parser.ParseQuery(&ast.Source{Name: "doc.graphql", Input: c.Get("doc")}); perr == nil {
+				reused := serializeErrs(validator.Validate(s2, doc))
+				want := serializeErrs(validator.Validate(s2, fresh))
+				x.Count("revalidated_against_second_schema")
+				if want != "" {
+					x.Count("second_schema_rejects")
+				}
+				if reused != want {
+					x.Violate("second-schema:differs-from-fresh-parse("+errListDiffKind(want, reused)+")", reused+"\n--- doc\n"+c.Get("doc"), want)
+				}
+				// and back: the first schema's verdict is unchanged by the excursion
+				if back := serializeErrs(validator.Validate(schema, doc)); back != serializeErrs(errs) {
+					x.Violate("second-schema:first-verdict-changed("+errListDiffKind(serializeErrs(errs), back)+")", back, serializeErrs(errs))
+				}
+			}
+		} else {
+			x.Count("skipped:second-schema-does-not-load")
+		}
+	}
 	codes := ref.Codes()
 	for _, a := range ref.Abstain {
 		x.Count("abstain:" + a)
@@ -306,4 +334,20 @@ func c08EntryPoints(x *core.Ctx, schema *ast.Schema, dsrc string, errs gqlerror.
 	if (panicked != nil) != (len(errs) > 0) || (panicked == nil && md == nil) {
 		x.Violate("MustLoadQuery:verdict", fmt.Sprintf("panicked=%v document=%v", panicked != nil, md != nil), fmt.Sprintf("panic iff Validate reports errors (%d)", len(errs)))
 	}
+}
+
+// c08WithoutArgDefaults renders the items with the default values of all field arguments removed.
+func c08WithoutArgDefaults(rn *model.Renderer, items []*model.Item) string {
+	cp := tsys.CloneItems(items)
+	for _, it := range cp {
+		if it.Kind != "type" && it.Kind != "interface" {
+			continue
+		}
+		for _, f := range it.Fields {
+			for _, a := range f.Args {
+				a.Default = nil
+			}
+		}
+	}
+	return rn.RenderSDoc(&model.SDoc{Items: cp})
 }
